@@ -112,3 +112,10 @@ Example C02_nonvacuous :
   snd (sstep wid wsan wunit repaired st' (SOp (OCount (Some 0) KArray))) = Ok (VNat 3).
 Proof. repeat split; vm_compute; reflexivity. Qed.
 Print Assumptions C02_nonvacuous.
+
+(** the hand copy of [util::looksLikeUUID] in the model is the definition the translator regenerates from
+    src/util/util.cpp on every run *)
+Require NixV.Store.GenBridge NixV.Gen.GenUtil.
+Theorem C02_looksLikeUUID_is_generated : forall s, NixV.Store.Db.looksLikeUUID s = NixV.Gen.GenUtil.looksLikeUUID s.
+Proof. exact NixV.Store.GenBridge.db_looksLikeUUID_is_generated. Qed.
+Print Assumptions C02_looksLikeUUID_is_generated.
